@@ -2,7 +2,7 @@
 # usage: tools/verify_seeded.sh [name...]  -- for every seeded change: scratch worktree of /repo HEAD,
 # suite passes with the patch, demo fails with it and passes without it. Removes the worktree.
 cd /verif/seeded
-for d in ${*:-*}; do
+for d in ${*:-M*}; do
   W=/tmp/wt_vs_$$
   git -C /repo worktree add -q --detach $W HEAD || exit 3
   cp $d/demo.py $W/demo.py
